@@ -111,8 +111,12 @@ class P:
             self.eat(); return ("not", self.p_un())
         n = self.is_cast()
         if n:
+            ty = " ".join(self.t[self.i + 1:self.i + n - 1]).replace(" *", "*")
             self.i += n
-            return self.p_un()       # casts between 64-bit integer / pointer types: identity on the bits
+            inner = self.p_un()
+            if re.match(r"^(const )?(uint32_t|DWORD|unsigned int|int32_t|int)$", ty):
+                return ("cast32", inner)     # truncation to 32 bits
+            return ("cast64", inner)         # 64-bit integer / pointer types: identity on the bits (zero-extension of narrower unsigned values)
         return self.p_prim()
 
     def p_prim(self):
@@ -122,7 +126,7 @@ class P:
         if tok is None:
             raise ParseError("unexpected end")
         if re.match(r"^(0x[0-9a-fA-F]+|\d+)$", tok):
-            self.eat(); return ("num", int(tok, 0))
+            self.eat(); return ("num", int(tok, 0), "lit")
         if tok == "sizeof":
             self.eat(); self.eat("(")
             words = []
@@ -147,28 +151,38 @@ class P:
             raise ParseError("unknown atom %r" % name)
         a = self.atoms[name]
         if isinstance(a, int):
-            return ("num", a)
+            return ("num", a, "int")         # sizeof / named constants of type size_t
         return ("var", a[0], a[1])
 
 
 def kind(e):
-    if e[0] == "num": return "int"
+    """ptr | int (64-bit unsigned) | u32 (32-bit unsigned: arithmetic wraps at 2^32, C's usual arithmetic conversions) | lit (int literal) | bool"""
+    if e[0] == "num": return e[2]
     if e[0] == "var": return e[2]
     if e[0] == "not": return "bool"
+    if e[0] == "cast32": return "u32"
+    if e[0] == "cast64":
+        k = kind(e[1])
+        return "ptr" if k == "ptr" else "int"
     op, a, b = e[1], e[2], e[3]
     if op in ("||", "&&", "<", "<=", ">", ">=", "==", "!="): return "bool"
     ka, kb = kind(a), kind(b)
-    if op == "+": return "ptr" if "ptr" in (ka, kb) else "int"
-    if op == "-": return "ptr" if (ka == "ptr" and kb != "ptr") else "int"
+    if op == "+" and "ptr" in (ka, kb): return "ptr"
+    if op == "-" and ka == "ptr": return "int" if kb == "ptr" else "ptr"
+    if ka == "lit" and kb == "lit": return "lit"
+    if ka in ("u32", "lit") and kb in ("u32", "lit"): return "u32"
     return "int"
 
 
 def lean_val(e):
-    """value of an integer/pointer expression as BitVec 64"""
+    """value of an integer/pointer expression as BitVec 64 (narrower values zero-extended)"""
     if e[0] == "num": return "(BitVec.allOnes 64)" if e[1] == 2**64 - 1 else "(%d#64)" % e[1]
     if e[0] == "var": return e[1]
+    if e[0] == "cast64": return lean_val(e[1])
+    if e[0] == "cast32": return "(w32 %s)" % lean_val(e[1])
     if e[0] == "bin" and e[1] in "+-*":
-        return "(%s %s %s)" % (lean_val(e[2]), e[1], lean_val(e[3]))
+        v = "(%s %s %s)" % (lean_val(e[2]), e[1], lean_val(e[3]))
+        return "(w32 %s)" % v if kind(e) == "u32" else v
     raise ParseError("boolean used as value")
 
 
@@ -188,7 +202,7 @@ def lean_bool(e):
 def lean_ub(e):
     """Bool term: pointer arithmetic leaves [0,2^64) during the (short-circuit) evaluation."""
     if e[0] in ("num", "var"): return "false"
-    if e[0] == "not": return lean_ub(e[1])
+    if e[0] in ("not", "cast32", "cast64"): return lean_ub(e[1])
     op, a, b = e[1], e[2], e[3]
     ua, ub = lean_ub(a), lean_ub(b)
     if op == "&&": return _or(ua, "(%s && %s)" % (lean_bool(a), ub) if ub != "false" else "false")
@@ -210,7 +224,10 @@ def _or(a, b):
 # ------------------------------------------------------------------ predicate table
 
 def _strip_cont(text):
-    return re.sub(r"\\\n", "\n", text)
+    """join continuation lines and drop C comments (a comment between `{` and `return` must not hide a predicate)"""
+    text = re.sub(r"\\\n", "\n", text)
+    text = re.sub(r"/\*.*?\*/", " ", text, flags=re.S)
+    return re.sub(r"//[^\n]*", "", text)
 
 
 PE_ATOMS = {"pe->data": ("data", "ptr"), "pe->data_size": ("data_size", "int"), "pointer": ("pointer", "ptr"), "size": ("size", "int")}
@@ -268,6 +285,53 @@ SPECS = [
          rx=r"if \(!\((start >= pe->data &&.*?string_index < heap_size)\)\)\s*return NULL;", args=["data", "data_size", "start", "string_index", "heap_size"],
          atoms={"start": ("start", "ptr"), "pe->data": ("data", "ptr"), "pe->data_size": ("data_size", "int"),
                 "string_index": ("string_index", "int"), "heap_size": ("heap_size", "int")}),
+    # ---- pe.c inline tests
+    dict(name="pe_available_before", reject=True, file="libyara/modules/pe/pe.c",
+         rx=r"static size_t available_space\(PE\* pe, void\* pointer\)\s*\{\s*if \((\(uint8_t\*\) pointer < pe->data)\)\s*return 0;",
+         args=["data", "data_size", "pointer"], atoms=PE_ATOMS),
+    dict(name="pe_available_after", reject=True, file="libyara/modules/pe/pe.c",
+         rx=r"static size_t available_space\(PE\* pe, void\* pointer\)\s*\{.*?return 0;\s*if \((\(uint8_t\*\) pointer >= pe->data \+ pe->data_size)\)\s*return 0;",
+         args=["data", "data_size", "pointer"], atoms=PE_ATOMS),
+    dict(name="pe_available_value", value=True, file="libyara/modules/pe/pe.c",
+         rx=r"static size_t available_space\(PE\* pe, void\* pointer\)\s*\{.*?return 0;.*?return 0;\s*return (pe->data \+ pe->data_size - \(uint8_t\*\) pointer);",
+         args=["data", "data_size", "pointer"], atoms=PE_ATOMS),
+    dict(name="pe_rich_nthdr_reject", reject=True, file="libyara/modules/pe/pe.c",
+         rx=r"if \((nthdr_offset > pe->data_size \+ sizeof\(uint32_t\) \|\| nthdr_offset < 4)\)\s*return;", args=["data_size", "nthdr_offset"],
+         atoms={"nthdr_offset": ("nthdr_offset", "u32"), "pe->data_size": ("data_size", "int"), "sizeof(uint32_t)": 4}),
+    dict(name="pe_exports_table_outside", reject=True, file="libyara/modules/pe/pe.c",
+         rx=r"if \((number_of_exports \* sizeof\(DWORD\) > pe->data_size - offset)\)\s*return;", args=["data_size", "offset", "number_of_exports"],
+         atoms={"number_of_exports": ("number_of_exports", "u32"), "pe->data_size": ("data_size", "int"), "offset": ("offset", "int"), "sizeof(DWORD)": 4}),
+    dict(name="pe_export_names_outside", reject=True, file="libyara/modules/pe/pe.c",
+         subst=[(r"yr_le32toh\(exports->NumberOfNames\)", "number_of_names")],
+         rx=r"if \((number_of_names \* sizeof\(DWORD\) >\s*pe->data_size - offset)\)\s*return;", args=["data_size", "offset", "number_of_names"],
+         atoms={"number_of_names": ("number_of_names", "u32"), "pe->data_size": ("data_size", "int"), "offset": ("offset", "int"), "sizeof(DWORD)": 4}),
+    dict(name="pe_security_dir_reject", reject=True, file="libyara/modules/pe/pe.c",
+         subst=[(r"yr_le32toh\(directory->VirtualAddress\)", "sec_va"), (r"yr_le32toh\(directory->Size\)", "sec_size")],
+         rx=r"if \((sec_va == 0 \|\|\s*sec_va > pe->data_size \|\|.*?pe->data_size)\)\s*\{\s*return;", args=["data_size", "sec_va", "sec_size"],
+         atoms={"sec_va": ("sec_va", "u32"), "sec_size": ("sec_size", "u32"), "pe->data_size": ("data_size", "int")}),
+    # ---- dotnet.c inline tests
+    dict(name="dotnet_blob4_ok", file="libyara/modules/dotnet/dotnet.c",
+         rx=r"else if \((offset \+ 4 < pe->data \+ pe->data_size) && \(\*offset & 0xE0\) == 0xC0\)", args=["data", "data_size", "offset"],
+         atoms={"offset": ("offset", "ptr"), "pe->data": ("data", "ptr"), "pe->data_size": ("data_size", "int")}),
+    dict(name="dotnet_blob_entry_outside", reject=True, file="libyara/modules/dotnet/dotnet.c",
+         rx=r"if \((blob_offset \+ blob_length >= pe->data \+ pe->data_size)\)", args=["data", "data_size", "blob_offset", "blob_length"],
+         atoms={"blob_offset": ("blob_offset", "ptr"), "blob_length": ("blob_length", "u32"), "pe->data": ("data", "ptr"), "pe->data_size": ("data_size", "int")}),
+    dict(name="dotnet_blob_index_reject", reject=True, file="libyara/modules/dotnet/dotnet.c",
+         rx=r"if \((blob_index == 0x00 \|\| blob_offset >= pe->data \+ pe->data_size)\)", args=["data", "data_size", "blob_offset", "blob_index"],
+         atoms={"blob_offset": ("blob_offset", "ptr"), "blob_index": ("blob_index", "u32"), "pe->data": ("data", "ptr"), "pe->data_size": ("data_size", "int")}),
+    dict(name="dotnet_attr_blob_reject", reject=True, file="libyara/modules/dotnet/dotnet.c",
+         rx=r"if \((blob_length < 3 \|\|\s*blob_offset \+ blob_length >= pe->data \+ pe->data_size)\)", args=["data", "data_size", "blob_offset", "blob_length"],
+         atoms={"blob_offset": ("blob_offset", "ptr"), "blob_length": ("blob_length", "u32"), "pe->data": ("data", "ptr"), "pe->data_size": ("data_size", "int")}),
+    dict(name="dotnet_attr_str_outside", reject=True, file="libyara/modules/dotnet/dotnet.c",
+         rx=r"if \((blob_offset \+ str_len > pe->data \+ pe->data_size)\)", args=["data", "data_size", "blob_offset", "str_len"],
+         atoms={"blob_offset": ("blob_offset", "ptr"), "str_len": ("str_len", "u32"), "pe->data": ("data", "ptr"), "pe->data_size": ("data_size", "int")}),
+    # ---- elf.c string table entry
+    dict(name="elf_str_table_empty", reject=True, file="libyara/modules/elf/elf.c",
+         rx=r"if \((str_table_base >= str_table_limit)\)\s*return NULL;", args=["str_table_base", "str_table_limit"],
+         atoms={"str_table_base": ("str_table_base", "ptr"), "str_table_limit": ("str_table_limit", "ptr")}),
+    dict(name="elf_str_entry_outside", reject=True, file="libyara/modules/elf/elf.c",
+         rx=r"if \((str_entry >= str_table_limit)\)\s*return NULL;", args=["str_entry", "str_table_limit"],
+         atoms={"str_entry": ("str_entry", "ptr"), "str_table_limit": ("str_table_limit", "ptr")}),
 ]
 
 ALIASES = [  # (name, file, regex that must match, target)
@@ -318,6 +382,10 @@ def translate_one(repo, spec):
         raise ParseError("expected %d identical occurrence(s), found %d (%d distinct)" % (want, len(found), len(norm)))
     ctext = norm.pop()
     ast = P(tokenize(ctext), spec["atoms"]).parse()
+    if spec.get("value"):
+        if kind(ast) == "bool":
+            raise ParseError("not a value expression")
+        return ctext, lean_val(ast), lean_ub(ast)
     if kind(ast) != "bool":
         raise ParseError("not a boolean expression")
     return ctext, lean_bool(ast), lean_ub(ast)
@@ -328,7 +396,9 @@ def run(repo, gendir):
     out = ["/- GENERATED by translators/bounds.py from the C text of /repo — do not edit.",
            "   Each `def` is the C expression quoted above it with 64-bit wrap-around arithmetic (BitVec 64);",
            "   `<name>_ub` is true when the C evaluation performs out-of-range *pointer* arithmetic (UB in C). -/",
-           "set_option linter.unusedVariables false", "namespace YaraModel.Gen.Bounds", ""]
+           "set_option linter.unusedVariables false", "namespace YaraModel.Gen.Bounds", "",
+           "/-- result of 32-bit unsigned arithmetic (both operands `uint32_t`/`DWORD`/int literal): wraps at 2^32, then zero-extended -/",
+           "def w32 (x : BitVec 64) : BitVec 64 := BitVec.setWidth 64 (BitVec.setWidth 32 x)", ""]
     status = {}
     for spec in SPECS:
         n = spec["name"]
@@ -336,16 +406,18 @@ def run(repo, gendir):
             ctext, lb, lu = translate_one(repo, spec)
             args = " ".join(spec["args"])
             out += ["/-- `%s`: `%s` -/" % (spec["file"], ctext.replace("/-", "/ -")),
-                    "def %s (%s : BitVec 64) : Bool :=\n  %s" % (n, args, lb),
+                    "def %s (%s : BitVec 64) : %s :=\n  %s" % (n, args, "BitVec 64" if spec.get("value") else "Bool", lb),
                     "def %s_ub (%s : BitVec 64) : Bool :=\n  %s" % (n, args, lu), ""]
             status[n] = "ok"
         except (ParseError, OSError) as e:
             args = " ".join(spec["args"])
             stub = "true" if spec.get("reject") else "false"
+            if spec.get("value"):
+                stub = "0#64"
             out += ["/-- UNPARSED `%s` (%s): %s." % (n, spec["file"], str(e).replace("-/", "- /")),
                     "    STUB that never accepts, so that the library and the driver still build; vf/checks/c06.py does not count the dependent theorems",
                     "    as discharged and does not compare this predicate with the compiled code (fallback: runtime correspondence, DESIGN R4). -/",
-                    "def %s (%s : BitVec 64) : Bool := %s" % (n, args, stub),
+                    "def %s (%s : BitVec 64) : %s := %s" % (n, args, "BitVec 64" if spec.get("value") else "Bool", stub),
                     "def %s_ub (%s : BitVec 64) : Bool := false" % (n, args),
                     "def %s_unparsed : Unit := ()" % n, ""]
             status[n] = "unparsed: %s" % e
